@@ -391,6 +391,101 @@ def explore_history(case):
     return res
 
 
+# ---------------- numeric curves built from Python data: storage forms, nearly equal control points, sequences of alike curves ---------
+def creeping_curves(n):
+    """control-point rows (floats) whose neighbours agree to six or more digits: a vehicle creeping at mm/s far from the origin, a hold,
+    and pairs of curves that agree with one another to six digits"""
+    k = np.arange(n + 1, dtype=float)
+    return [("hold_2500", np.full(n + 1, 2500.0)), ("creep_up_2500", 2500.0 + 5e-4 * k), ("creep_down_2500", 2500.003 - 4e-4 * k), ("creep_1000", 1000.0 + 1e-3 * k * k),
+            ("creep_small", 1e-3 * (1.0 + 1e-7 * k)), ("creep_neg_1e6", -1.0e6 + 0.25 * k), ("unit_steps", 1.0 * k), ("alternating", np.array([(-2.0) ** (i % 2) * (1 + i) for i in range(n + 1)]))]
+
+
+def storage_forms(A):
+    """the same (dim x n+1) control-point array in the storage forms a Python caller has at hand"""
+    big = np.zeros((A.shape[0] * 2, A.shape[1] * 2))
+    big[::2, ::2] = A
+    wp = np.ascontiguousarray(A.T)  # way-points by row, as read from a mission file
+    return [("DM", lambda: ca.DM(A)), ("numpy_C", lambda: np.ascontiguousarray(A)), ("numpy_F", lambda: np.asfortranarray(A)), ("numpy_transposed_view", lambda: wp.T),
+            ("numpy_strided_view", lambda: big[::2, ::2]), ("SX_constant", lambda: ca.SX(ca.DM(A))), ("numpy_reversed_view", lambda: A[:, ::-1][:, ::-1])]
+
+
+def explore_numeric(case):
+    n, tier = case["n"], case["tier"]
+    res = core.Result()
+    curves = creeping_curves(n)
+    T = 2.0
+    betas = [Fr(1, 3), Fr(0), Fr(1)]
+
+    def judge(P_rows, B, what, cls, detail):
+        ok = True
+        for m in range(0, min(n, 2) + 1):
+            C = B if m == 0 else B.deriv(m)
+            for beta in betas:
+                res.count("evaluations")
+                got = np.array(ca.evalf(ca.densify(ca.SX(C.eval(float(beta) * T)))), dtype=float).reshape(-1)
+                want = [float(ref_curve([Fr(float(x)) for x in row], Fr(T), beta, m)) for row in P_rows]
+                # scale of the m-th derivative's own control points (differences of the data), plus the rounding of the data themselves
+                sc = []
+                for row in P_rows:
+                    d = np.array(row, dtype=float)
+                    for j in range(m):
+                        d = (n - j) * np.diff(d) / T
+                    sc.append(float(np.max(np.abs(d))) if d.size else 0.0)
+                tol = [1e-9 * sc_ + 4e-13 * float(np.max(np.abs(row))) * (2.0 * n / T) ** m for sc_, row in zip(sc, P_rows)]
+                if got.shape != (len(want),) or not np.all(np.isfinite(got)) or any(abs(g - w) > t_ for g, w, t_ in zip(got, want, tol)):
+                    res.fail(site="Bezier.eval" if m == 0 else "Bezier.deriv", clause=what, cls=cls, detail=dict(detail, n=n, derivative=m, beta=str(beta), got=got, want=want), sub="numeric", case=case)
+                    ok = False
+                    break
+            if not ok:
+                break
+        return ok
+    # (a) storage forms x curves (two rows: one creeping, one ordinary, so that a scrambled layout is visible)
+    for ci, (cname, row) in enumerate(curves):
+        other = curves[(ci + 3) % len(curves)][1]
+        A = np.array([row, other, row[::-1]])
+        for fname, mk in storage_forms(A):
+            res.nontrivial.add(hash(("form", n, cname, fname)))
+            try:
+                with contextlib.redirect_stdout(io.StringIO()):
+                    B = bz().Bezier(mk(), T)
+                    judge([list(r) for r in A], B, "curve_of_numeric_control_points", fname, dict(curve=cname, storage=fname))
+            except Exception as ex:
+                res.count("evaluations")
+                res.fail(site="Bezier", clause="operation_raises", cls="numeric;" + fname, detail=dict(curve=cname, storage=fname, error="%s: %s" % (type(ex).__name__, str(ex)[:200])), sub="numeric", case=case)
+    # (b) sequences: every ordered pair (thorough: triple) of curves evaluated one after the other in one process; the last one is judged
+    depth = 3 if tier == "thorough" else 2
+    for word in itertools.product(range(len(curves)), repeat=depth):
+        if len(set(word)) == 1:
+            continue
+        res.nontrivial.add(hash(("seq", n, word)))
+        res.count("transitions", len(word))
+        try:
+            with contextlib.redirect_stdout(io.StringIO()):
+                for i, ci in enumerate(word):
+                    A = np.array([curves[ci][1]])
+                    B = bz().Bezier(ca.DM(A), T)
+                    if i < len(word) - 1:
+                        for m in range(1, min(n, 2) + 1):
+                            ca.evalf(ca.densify(ca.SX(B.deriv(m).eval(0.5))))
+                    else:
+                        judge([list(A[0])], B, "curve_independent_of_earlier_curves", "after_alike_curve", dict(sequence=[curves[c][0] for c in word]))
+        except Exception as ex:
+            res.count("evaluations")
+            res.fail(site="Bezier", clause="operation_raises", cls="numeric;sequence", detail=dict(sequence=[curves[c][0] for c in word], error="%s: %s" % (type(ex).__name__, str(ex)[:200])), sub="numeric", case=case)
+    res.samples.append(dict(numeric_n=n, curves=[c for c, _ in curves], forms=[f for f, _ in storage_forms(np.zeros((1, n + 1)))], sequence_depth=depth))
+    return res
+
+
+class _Nu:
+    chunks = 1
+
+    def cases(self, tier, seed):
+        return [dict(sub="numeric", n=n, tier=tier) for n in ((1, 3, 7) if tier == "quick" else (1, 2, 3, 5, 7))]
+
+    def run(self, case):
+        return explore_numeric(case)
+
+
 class _Hi:
     chunks = 1
 
@@ -431,9 +526,9 @@ class _Mu:
         return explore_multirotor(case)
 
 
-SUBCHECKS = {"curve": _Cu(), "solve": _So(), "multirotor": _Mu(), "history": _Hi(), "highdeg": _Hd()}
+SUBCHECKS = {"curve": _Cu(), "solve": _So(), "multirotor": _Mu(), "history": _Hi(), "highdeg": _Hd(), "numeric": _Nu()}
 REPLAY = {"curve": lambda c: explore_curve(c).fails, "solve": lambda c: explore_solve(c).fails, "multirotor": lambda c: explore_multirotor(c).fails,
-          "history": lambda c: explore_history(c).fails, "highdeg": lambda c: explore_highdeg(c).fails}
+          "history": lambda c: explore_history(c).fails, "highdeg": lambda c: explore_highdeg(c).fails, "numeric": lambda c: explore_numeric(c).fails}
 
 # keyword / dict calls bind the documented names (see mc/kw.py)
 from .. import kw as _kw  # noqa: E402
